@@ -381,7 +381,8 @@ def list_harnesses(scratch_src_dir=None):
         for m in re.finditer(r'((?:[ \t]*(?://[^\n]*|#\[[^\n]*\])\n)*)[ \t]*(?:pub(?:\([a-z]+\))?\s+)?fn\s+(\w+)\s*\(\s*\)', text):
             attrs = m.group(1)
             if 'kani::proof' in attrs:
-                out.append(dict(module=modpath, name=m.group(2), attrs=attrs, full='%s::verif_kani::%s' % (modpath, m.group(2))))
+                full = ('verif_kani::%s' % m.group(2)) if modpath == 'lib' else ('%s::verif_kani::%s' % (modpath, m.group(2)))
+                out.append(dict(module=modpath, name=m.group(2), attrs=attrs, full=full))
     return out
 
 
